@@ -273,6 +273,28 @@ func (fx *fnExec) assignsCheck(st *state, a *addr, in ssa.Instruction, pos token
 	case aField:
 		arr, _ := fx.fieldArr(a.st, a.field)
 		arrs, idx = []string{arr}, a.ref
+		if n := namedOf(a.st); n != nil && n.Obj().Pkg() != nil {
+			if old, ok := oldFields[n.Obj().Pkg().Path()+"."+n.Obj().Name()]; ok {
+				known := false
+				fname := structOf(a.st).Field(a.field).Name()
+				for _, f := range old {
+					if f == fname {
+						known = true
+					}
+				}
+				if !known {
+					if strings.HasPrefix(idx, "new!") {
+						return
+					}
+					before := len(fx.obls)
+					fx.assignsObl(arr, idx, in, pos)
+					for _, o := range fx.obls[before:] {
+						o.NewField = true
+					}
+					return
+				}
+			}
+		}
 	case aCell:
 		arr, _ := fx.cellArr(a.base)
 		arrs, idx = []string{arr}, a.ref
